@@ -108,9 +108,10 @@ def run(repo, rep):
     texts = ['lat2 = atan2(sin u1 cos s + cos u1 sin s cos az, (1-f) sqrt(sin^2 alpha + (...)^2))',
              'lon2 = lon1 + degrees(lambda - (1-C) f sin alpha (sigma + C sin sigma (cos 2sm + C cos sigma (-1 + 2 cos^2 2sm))))',
              'azimuth2to1 = degrees(atan2(sin alpha, -sin u1 sin sigma + cos u1 cos sigma cos az)) + 180']
-    from ..symcheck import strip_turn_folds
+    from ..symcheck import strip_turn_folds, prune_infeasible
     for i in range(3):
-        got_i = val.items[i]
+        # a re-mapping of an argument under a test that no point of the domain satisfies (`if lon1 > 180: lon1 -= 360`) is the identity
+        got_i = prune_infeasible(val.items[i], {'lat1': (-90, 90), 'lon1': (-180, 180), 'az': (0, 360)})
         if i == 1 and LON_MODULO_TURN[0]:
             # the property compares the longitude modulo 360 degrees: a wrap of the result (or of lon1, which enters linearly) into a
             # principal range changes the representative, not the longitude
